@@ -185,7 +185,9 @@ def ks_jobs(bindir, sc, refs_file, queries_file, k):
     out = [("count", 0, [count] + base + lim + thr + cpu + [queries_file], "obikmersimcount " + " ".join(base[2:] + lim + thr + cpu) + " -r refs queries"),
            ("count", 1, [count] + base + lim + thr + cpu + ["--self"], "obikmersimcount " + " ".join(base[2:] + lim + thr + cpu) + " -r refs --self")]
     if sc["sc"] in ("family", "random"):
-        out.append(("match", 0, [match] + base + thr + cpu + [queries_file], "obikmermatch " + " ".join(base[2:] + thr + cpu) + " -r refs queries"))
+        # thresholds that really exclude references sharing a few k-mers (chimeras, mutated copies)
+        mthr = ["-m", str(max(sc["minc"], (1, 8, 20, 40)[k % 4]))]
+        out.append(("match", 0, [match] + base + mthr + cpu + [queries_file], "obikmermatch " + " ".join(base[2:] + mthr + cpu) + " -r refs queries"))
     return out
 
 
@@ -207,7 +209,8 @@ def ks_event_of_run(ctx, origin, sc, selfmode, cmdline, r):
     else:
         queries = [{"sc": q["sc"], "id": q["id"], "s": q["s"], "self": 0} for q in sc["queries"]]
     ev = {"kind": "ks", "origin": origin, "cmdline": cmdline, "sc": sc["sc"], "refs": sc["refs"], "k": sc["k"], "sp": sc["sp"],
-          "mo": sc["mo"] if origin == "count" else -1, "minc": sc["minc"] if "-m" in cmdline.split() else 1, "w": sc["w"], "bits": 128,
+          "mo": sc["mo"] if origin == "count" else -1, "minc": int(cmdline.split()[cmdline.split().index("-m") + 1]) if "-m" in cmdline.split() else 1,
+          "w": sc["w"], "bits": 128,
           "pan": 0, "panmsg": "", "rank": [], "selfmode": selfmode, "queries": []}
     for q in queries:
         qo = dict(q, ans=[], rans=[], nm=-1, ksize=-1, spk=-1, seen=len(by.get(q["id"], [])), pan=0, panmsg="", outs=[])
@@ -417,7 +420,7 @@ def main(ctx):
         ctx.expect_vacuity("replayed k-mer cases with a hit", sum(v for k, v in ctx.classes.items() if k.endswith("/hit")))
     # T ---------------------------------------------------------------------------------------
     bindir = ctx.build_cmds(["obimicrosat", "obikmersimcount", "obikmermatch"])
-    n_ms, n_ks, f_ms, per, f_ks, maxlen_ms, maxlen_ks = (4000, 300, 40, 50, 100, 300, 160) if thorough else (288, 36, 8, 32, 14, 120, 90)
+    n_ms, n_ks, f_ms, per, f_ks, maxlen_ms, maxlen_ks = (4000, 300, 40, 50, 100, 300, 160) if thorough else (288, 32, 8, 32, 16, 120, 90)
     mtrace = ctx.path("trace_ms.ndjson")
     ctx.harness(["record", "X04", "--out", mtrace, "--n", n_ms, "--opt", "part=ms", "--opt", "maxlen=%d" % maxlen_ms], timeout=900)
     with open(mtrace, "a") as f:
@@ -455,6 +458,9 @@ def main(ctx):
         ctx.expect_vacuity("obikmermatch records", sum(len(q["outs"]) for e, q in qs if e["origin"] == "match"))
         ctx.expect_vacuity("obikmermatch records on the reverse strand", sum(1 for e, q in qs if e["origin"] == "match" for o in q["outs"] if o["rev"]))
         ctx.expect_vacuity("obikmermatch exact records", sum(1 for e, q in qs if e["origin"] == "match" for o in q["outs"] if o["ident1"]))
+        ctx.expect_vacuity("obikmermatch exact records whose overlap is shorter than the consensus",
+                           sum(1 for e, q in qs if e["origin"] == "match" for o in q["outs"] if o["ident1"] and 0 < o["alen"] < len(o["seq"])))
+        ctx.expect_vacuity("obikmermatch runs with a threshold of 8 shared k-mers or more", sum(1 for e in ks_events if e["origin"] == "match" and e["minc"] >= 8))
     ctx.extra["recorded_microsat_events"] = dict(collections.Counter(e["origin"] for e in ms_events))
     ctx.extra["recorded_kmer_events"] = dict(collections.Counter(e["origin"] for e in ks_events))
     ctx.extra["recorded_kmer_queries"] = sum(len(e["queries"]) for e in ks_events)
